@@ -26,8 +26,12 @@ pub fn huffman_case(case: &Value, _mode: &str, rep: &mut Report) {
     if n == 1 { rep.class("single_symbol"); }
     let r = guarded(|| {
         let wf32: Vec<f32> = w.iter().map(|x| *x as f32).collect(); let wf64: Vec<f64> = w.iter().map(|x| *x as f64 * 0.25).collect();
-        let encs = vec![("from_probabilities::<u32>", EncoderHuffmanTree::from_probabilities::<u32, _>(&w)), ("from_float_probabilities::<f32>", EncoderHuffmanTree::from_float_probabilities::<f32, _>(&wf32).unwrap()), ("from_float_probabilities::<f64>", EncoderHuffmanTree::from_float_probabilities::<f64, _>(&wf64).unwrap())];
-        let decs = vec![("from_probabilities::<u32>", DecoderHuffmanTree::from_probabilities::<u32, _>(&w)), ("from_float_probabilities::<f32>", DecoderHuffmanTree::from_float_probabilities::<f32, _>(&wf32).unwrap()), ("from_float_probabilities::<f64>", DecoderHuffmanTree::from_float_probabilities::<f64, _>(&wf64).unwrap())];
+        // tiny weights (exact multiples of 2^-40 / 2^-70, all far below the machine epsilon): the order of the weights is still exact
+        let tf32: Vec<f32> = w.iter().map(|x| *x as f32 * 2f32.powi(-40)).collect(); let tf64: Vec<f64> = w.iter().map(|x| *x as f64 * 2f64.powi(-70)).collect();
+        let encs = vec![("from_probabilities::<u32>", EncoderHuffmanTree::from_probabilities::<u32, _>(&w)), ("from_float_probabilities::<f32>", EncoderHuffmanTree::from_float_probabilities::<f32, _>(&wf32).unwrap()), ("from_float_probabilities::<f64>", EncoderHuffmanTree::from_float_probabilities::<f64, _>(&wf64).unwrap()),
+                        ("from_float_probabilities::<f32> (weights * 2^-40)", EncoderHuffmanTree::from_float_probabilities::<f32, _>(&tf32).unwrap()), ("from_float_probabilities::<f64> (weights * 2^-70)", EncoderHuffmanTree::from_float_probabilities::<f64, _>(&tf64).unwrap())];
+        let decs = vec![("from_probabilities::<u32>", DecoderHuffmanTree::from_probabilities::<u32, _>(&w)), ("from_float_probabilities::<f32>", DecoderHuffmanTree::from_float_probabilities::<f32, _>(&wf32).unwrap()), ("from_float_probabilities::<f64>", DecoderHuffmanTree::from_float_probabilities::<f64, _>(&wf64).unwrap()),
+                        ("from_float_probabilities::<f32> (weights * 2^-40)", DecoderHuffmanTree::from_float_probabilities::<f32, _>(&tf32).unwrap()), ("from_float_probabilities::<f64> (weights * 2^-70)", DecoderHuffmanTree::from_float_probabilities::<f64, _>(&tf64).unwrap())];
         let mut out: Vec<String> = vec![]; let mut checks = 0u64;
         for (name, e) in &encs {
             if e.num_symbols() != n { out.push(format!("EncoderHuffmanTree::{}: num_symbols() = {}", name, e.num_symbols())); }
@@ -74,9 +78,14 @@ pub fn huffman_f32_case(case: &Value, _mode: &str, rep: &mut Report) {
     let n = w.len();
     if case["exact_differs"].as_bool() == Some(true) { rep.class("f32_rounding_changes_the_code"); }
     let r = guarded(|| {
-        let wf: Vec<f32> = w.iter().map(|x| *x as f32).collect();
+        let wf0: Vec<f32> = w.iter().map(|x| *x as f32).collect();
         let mut out: Vec<String> = vec![]; let mut checks = 0u64;
-        for (x, f) in w.iter().zip(&wf) { if *f as f64 != *x as f64 { out.push(format!("harness: weight {} is not an f32", x)); } }
+        for (x, f) in w.iter().zip(&wf0) { if *f as f64 != *x as f64 { out.push(format!("harness: weight {} is not an f32", x)); } }
+        // the same weights scaled by powers of two (exact in binary floating point, so every sum rounds identically and the code must be
+        // the same): by 2^-24 the weights sit one ulp apart around 1.0, by 2^-60 they are far below the machine epsilon.  Weights are
+        // ordered by their VALUE, not "approximately".
+        for scale in [1.0f32, 2f32.powi(-24), 2f32.powi(-60)] {
+        let wf: Vec<f32> = wf0.iter().map(|x| *x * scale).collect();
         let e = EncoderHuffmanTree::from_float_probabilities::<f32, _>(&wf).unwrap();
         let d = DecoderHuffmanTree::from_float_probabilities::<f32, _>(&wf).unwrap();
         for s in 0..n {
@@ -90,6 +99,7 @@ pub fn huffman_f32_case(case: &Value, _mode: &str, rep: &mut Report) {
             if r != Ok((s, cb[s].len())) { out.push(format!("DecoderHuffmanTree::from_float_probabilities::<f32>({:?}): decoding {:?} gives {:?}, expected symbol {}", wf, cb[s], r, s)); }
             // what the encoder emits must decode to the same symbol with the decoder built from the same weights
             if let Ok(pb) = &p { let mut b2 = pb.clone(); b2.extend([true, false]); let r2 = decode(&d, &b2); if r2 != Ok((s, pb.len())) { out.push(format!("f32 Huffman trees disagree for weights {:?}: encoder emits {:?} for symbol {}, decoder reads {:?}", wf, pb, s, r2)); } }
+        }
         }
         (out, checks)
     });
